@@ -64,8 +64,15 @@ def run_xlift(unit, tier, seed):
     kwargs.update(tier=tier, seed=seed)
     env = dict(os.environ)
     env["PYTHONPATH"] = ROOT + (os.pathsep + REPO if REPO != "/repo" else "")
-    p = subprocess.run([sys.executable, "-m", "vf.xlift.runner", unit["module"], unit["func"], json.dumps(kwargs)],
-                       capture_output=True, text=True, cwd=ROOT, env=env, timeout=unit.get("timeout", 900))
+    limit = unit.get("timeout", 600 if tier == "quick" else 3600)
+    try:
+        p = subprocess.run([sys.executable, "-m", "vf.xlift.runner", unit["module"], unit["func"], json.dumps(kwargs)],
+                           capture_output=True, text=True, cwd=ROOT, env=env, timeout=limit)
+    except subprocess.TimeoutExpired:
+        # the exact-arithmetic run did not finish (typically: code under test that branches on the symbolic inputs far more often than
+        # the unchanged code): undecided, never a violation and not a crash of the checker
+        return dict(status="ok", obligations=[dict(name=f"{unit['module']}:{unit['func']}#xsym.time-limit[{unit['name']}]", kind="xsym", result="unknown", backend="xlift", ms=limit * 1000,
+                                                   reason=f"no result within {limit} s")])
     if "@@RESULT@@" not in p.stdout:
         return dict(status="crash", error=(p.stderr or p.stdout)[-2000:], obligations=[])
     rec = json.loads(p.stdout.split("@@RESULT@@")[1])
